@@ -155,7 +155,12 @@ class Prim(_Model):
 
         pe_ = enc(tuple(sorted((k, str(v)) for k, v in params.items() if isinstance(v, (int, float, str, bool)))))
         outs = []
-        for k in range(self.n_out):
+        n_out = self.n_out
+        # higher-order primitives bound as they are (no interpretation): as many results as the body / branches have
+        body = params.get("jaxpr") if self.name == "scan" else (params.get("branches") or [None])[0] if self.name == "cond" else None
+        if body is not None:
+            n_out = len(getattr(body, "jaxpr", body).outvars)
+        for k in range(n_out):
             f = z3.Function("Bind_%s_%d" % (self.name, k), V, V, V)
             outs.append(Sym(f(enc(tuple(args)), pe_)))
         return outs if self.multiple_results else outs[0]
